@@ -63,7 +63,7 @@ ASSUMPTIONS = [
     "file system writes under the per-process work directory are reliable; the locale encoding is UTF-8",
 ]
 BOUND = {
-    "quick": "<= 2 deviations; rows in {1,2,3}; packed data set of 24 rows per schema; fault bases: default tuple "
+    "quick": "<= 2 deviations; rows in {1,2,3} (+ 10^4 rows once per default schema); packed data set of 24 rows per schema; fault bases: default tuple "
     "x all delimiters / markers, all 1- and 2-field tuples",
     "thorough": "<= 3 deviations (pairwise 4..8-field tuples: <= 2); rows in {1,2,3,10^4} (10^4 rows = packed "
     "cycle of all cell letters, combined with <= 1 further deviation); fault bases additionally all 3-field and "
@@ -337,7 +337,7 @@ def ALPHABETS():
         "unit_letters": len(UNITS),
         "routes": len(VIAS),
         "containers": len(CONTAINERS),
-        "row_counts": len(ROWS) + (1 if alph.TIER == "thorough" else 0),
+        "row_counts": len(ROWS) + 1,
     }
     for t in "sifbc":
         a["fills_" + TCODE[t]] = len(FILLS[t])
@@ -545,6 +545,8 @@ def data_points(spec, d, tier, s_total):
         for combo in itertools.combinations(range(len(axes)), k):
             for letters in itertools.product(*[axes[i][1] for i in combo]):
                 pts.append({axes[i][0]: l for i, l in zip(combo, letters)})
+    if tier != "thorough" and d >= 1 and s_total == 0:
+        pts.append({"rows": BIG_ROWS})  # the large file once per default schema in the quick tier too
     if tier == "thorough":
         # 10^4 rows: a packed cycle of all letters; combined with <= 1 further deviation
         if d >= 1 and s_total <= 1:
